@@ -789,6 +789,14 @@ pub fn slice_rposition<T, P: Fn(&T) -> bool>(s: &[T], pred: P) -> (r: Option<usi
             && forall|i: int| r.unwrap() < i < s@.len() ==> pred.ensures((&#[trigger] s@[i],), false),
         r.is_none() ==> forall|i: int| 0 <= i < s@.len() ==> pred.ensures((&#[trigger] s@[i],), false),
 { s.iter().rposition(pred) }
+pub broadcast proof fn lemma_vals_skip<T>(s: Seq<&T>, k: int)
+    requires 0 <= k <= s.len()
+    ensures #[trigger] vals(s.skip(k)) == vals(s).skip(k)
+{ assert(vals(s.skip(k)) =~= vals(s).skip(k)); }
+pub broadcast proof fn lemma_vals_drop_first<T>(s: Seq<&T>)
+    requires s.len() > 0
+    ensures #[trigger] vals(s.drop_first()) == vals(s).drop_first()
+{ assert(vals(s.drop_first()) =~= vals(s).drop_first()); }
 pub proof fn lemma_vals_as_ref<T>(s: Seq<T>) ensures vals(s.as_ref()) == s { assert(vals(s.as_ref()) =~= s); }
 } // verus!
 
@@ -894,7 +902,7 @@ spec:
 tags C03 C04
 ret r
 spec:
-        requires self.wf(), exists|k: int| 0 <= k < self.toks().len() && self.toks()[k] == token,
+        requires self.wf(), token.span.s() <= token.span.e(), gbnd(token.span.s()), gbnd(token.span.e()),    // [C03] [C04] the slice must be in bounds on char boundaries
         ensures r.spec_bytes() == the_input().subrange(token.span.s(), token.span.e())   // [C04]
 @*/
 /*@ fn src/parser/block_parser.rs BlockParser::slice_str
@@ -1632,6 +1640,93 @@ closure @ `|t| t == T![')']` `TokenKind` ret `b: bool`:
 before `bp.warn(`:
             proof { lemma_mono(bp.toks(), old(bp).cur(), bp.cur() - 1); }
 @*/
+proof fn lemma_modifier_bits()
+    ensures Modifiers::RECIPE.bits == 1, Modifiers::REF.bits == 2, Modifiers::HIDDEN.bits == 4, Modifiers::OPT.bits == 8, Modifiers::NEW.bits == 16
+{
+    assert(1u16 << 0 == 1) by (bit_vector); assert(1u16 << 1 == 2) by (bit_vector); assert(1u16 << 2 == 4) by (bit_vector);
+    assert(1u16 << 3 == 8) by (bit_vector); assert(1u16 << 4 == 16) by (bit_vector);
+}
+proof fn lemma_or_recipe(a: u16, b: u16)
+    ensures ((a | b) & 1 == 1) == ((a & 1 == 1) || (b & 1 == 1)), 0u16 & 1 != 1, 2u16 & 1 != 1, 4u16 & 1 != 1, 8u16 & 1 != 1, 16u16 & 1 != 1, 1u16 & 1 == 1
+{
+    assert(((a | b) & 1 == 1) == ((a & 1 == 1) || (b & 1 == 1))) by (bit_vector);
+    assert(0u16 & 1 != 1) by (bit_vector); assert(2u16 & 1 != 1) by (bit_vector); assert(4u16 & 1 != 1) by (bit_vector);
+    assert(8u16 & 1 != 1) by (bit_vector); assert(16u16 & 1 != 1) by (bit_vector); assert(1u16 & 1 == 1) by (bit_vector);
+}
+pub open spec fn inter_data_ok(o: Option<Located<IntermediateData>>) -> bool { o.is_some() ==> o.unwrap().sp().ok() }
+/// a modifier character
+pub open spec fn mod_marker(k: TokenKind) -> bool { k == TokenKind::At || k == TokenKind::Question || k == TokenKind::Plus || k == TokenKind::Minus || k == TokenKind::And }
+/// s[j] is the first `)` after position i
+pub open spec fn close_at(s: Seq<Token>, i: int, j: int) -> bool {
+    i < j < s.len() && s[j].kind == TokenKind::CloseParen && forall|k: int| i < k < j ==> (#[trigger] s[k]).kind != TokenKind::CloseParen
+}
+/// the modifier tokens of a component, from index i: modifier characters, a `&` optionally followed (only with the
+/// intermediate-preparations extension) by a complete parenthesised group
+pub open spec fn mods_ok(s: Seq<Token>, i: int, inter: bool) -> bool
+    decreases s.len() - i
+{
+    if i >= s.len() { i == s.len() }
+    else if !mod_marker(s[i].kind) { false }
+    else if s[i].kind == TokenKind::And && i + 1 < s.len() && s[i + 1].kind == TokenKind::OpenParen {
+        inter && exists|j: int| #[trigger] close_at(s, i + 1, j) && mods_ok(s, j + 1, inter)
+    } else { mods_ok(s, i + 1, inter) }
+}
+pub proof fn lemma_close_unique(s: Seq<Token>, i: int, j1: int, j2: int)
+    requires close_at(s, i, j1), close_at(s, i, j2) ensures j1 == j2
+{ if j1 < j2 { assert(s[j1].kind != TokenKind::CloseParen); } if j2 < j1 { assert(s[j2].kind != TokenKind::CloseParen); } }
+pub proof fn lemma_close_shift(ts: Seq<Token>, start: int, i: int, j: int)
+    requires 0 <= start <= i, close_at(ts, i, j)
+    ensures close_at(ts.subrange(start, ts.len() as int), i - start, j - start)
+{
+    let r = ts.subrange(start, ts.len() as int);
+    assert forall|k: int| i - start < k < j - start implies (#[trigger] r[k]).kind != TokenKind::CloseParen by { assert(r[k] == ts[k + start]); }
+}
+/// one modifier element occupies [a, b) of s
+pub open spec fn elem_ok(s: Seq<Token>, a: int, b: int, inter: bool) -> bool {
+    0 <= a < b <= s.len() && mod_marker(s[a].kind)
+    && (b == a + 1 || (s[a].kind == TokenKind::And && inter && a + 1 < s.len() && s[a + 1].kind == TokenKind::OpenParen && close_at(s, a + 1, b - 1)))
+}
+pub proof fn lemma_elem_trunc(s: Seq<Token>, n: int, a: int, b: int, inter: bool)
+    requires elem_ok(s, a, b, inter), b <= n <= s.len()
+    ensures elem_ok(s.subrange(0, n), a, b, inter)
+{
+    let t = s.subrange(0, n);
+    if b != a + 1 {
+        assert forall|k: int| a + 1 < k < b - 1 implies (#[trigger] t[k]).kind != TokenKind::CloseParen by { assert(t[k] == s[k]); }
+    }
+}
+/// cuts = start offsets of the elements plus the end; every element is well formed and a single `&` is never directly
+/// followed by `(` unless it is the last token
+pub open spec fn cuts_ok(s: Seq<Token>, cuts: Seq<int>, inter: bool) -> bool {
+    cuts.len() >= 1 && cuts[0] == 0 && cuts.last() == s.len()
+    && forall|k: int| 0 <= k < cuts.len() - 1 ==> elem_ok(s, #[trigger] cuts[k], cuts[k + 1], inter)
+}
+pub proof fn lemma_cuts_mods(s: Seq<Token>, cuts: Seq<int>, k: int, inter: bool)
+    requires cuts_ok(s, cuts, inter), 0 <= k < cuts.len()
+    ensures mods_ok(s, cuts[k], inter)
+    decreases cuts.len() - k
+{
+    if k == cuts.len() - 1 { }
+    else {
+        lemma_cuts_mods(s, cuts, k + 1, inter);
+        let a = cuts[k]; let b = cuts[k + 1];
+        assert(elem_ok(s, a, b, inter));
+        assert(mods_ok(s, b, inter));
+        if b == a + 1 {
+            if s[a].kind == TokenKind::And && a + 1 < s.len() && s[a + 1].kind == TokenKind::OpenParen {
+                // the next element starts at a + 1, so s[a + 1] is a modifier character, not `(`
+                assert(k + 1 < cuts.len() - 1);
+                assert(elem_ok(s, cuts[k + 1], cuts[k + 2], inter));
+                assert(false);
+            }
+            assert(mods_ok(s, a, inter));
+        } else {
+            assert(close_at(s, a + 1, b - 1));
+            assert(mods_ok(s, (b - 1) + 1, inter));
+            assert(mods_ok(s, a, inter));
+        }
+    }
+}
 /*@ fn src/parser/step.rs note
 tags C03 C04 C05
 ret r
@@ -1657,20 +1752,66 @@ spec:
         r@ == old(bp).toks().subrange(old(bp).cur(), final(bp).cur()), toks_ok(r@),
         // [C02] with the modifiers extension off nothing is consumed
         !old(bp).ext().has(Extensions::COMPONENT_MODIFIERS) ==> r@.len() == 0 && final(bp).cur() == old(bp).cur(),
+        // [C03] what parse_modifiers relies on: only modifier characters, `&` optionally followed by a complete `( .. )` group
+        mods_ok(r@, 0, old(bp).ext().has(Extensions::INTERMEDIATE_PREPARATIONS)),
+enter:
+    hide(toks_ok);
 before `return &[];`:
-        proof { assert(old(bp).toks().subrange(old(bp).cur(), old(bp).cur()) =~= Seq::<Token>::empty()); lemma_sub_ok(old(bp).toks(), old(bp).cur(), old(bp).cur()); }
+        proof { assert(old(bp).toks().subrange(old(bp).cur(), old(bp).cur()) =~= Seq::<Token>::empty()); lemma_sub_ok(old(bp).toks(), old(bp).cur(), old(bp).cur());
+                let e: &[Token] = &[]; assert(e@ =~= Seq::<Token>::empty()); }
+after `let start = bp.current;`:
+    let ghost inter = bp.ext().has(Extensions::INTERMEDIATE_PREPARATIONS);
+    let ghost rest = bp.toks().subrange(start as int, bp.toks().len() as int);
+    let ghost mut cuts: Seq<int> = seq![0int];
 loop 0:
         invariant bp.wf(), bp.same(old(bp)), bp.evs() == old(bp).evs(), start == old(bp).cur(), start <= bp.cur(),
+            inter == bp.ext().has(Extensions::INTERMEDIATE_PREPARATIONS),
+            rest == bp.toks().subrange(start as int, bp.toks().len() as int),
+            cuts.len() >= 1, cuts[0] == 0, cuts.last() == bp.cur() - start,
+            forall|k: int| 0 <= k < cuts.len() ==> 0 <= #[trigger] cuts[k] <= cuts.last(),
+            forall|k: int| 0 <= k < cuts.len() - 1 ==> elem_ok(rest, #[trigger] cuts[k], cuts[k + 1], inter),
         decreases bp.toks().len() - bp.cur()
+loopbody 0:
+        let ghost c0 = bp.cur();
+        let ghost cuts0 = cuts;
+        proof { if c0 < bp.toks().len() { assert(rest[c0 - start] == bp.toks()[c0]); } }
+after `T![@] | T![?] | T![+] | T![-] => {<NL>                bp.bump_any();`:
+                proof { cuts = cuts0.push(bp.cur() - start); }
 before `bp.with_recover(|bp| {`:
                     let ghost pre = *bp;
 closure @ `|bp| {` `&mut BlockParser` ret `o: Option<()>`:
         requires *old(bp) == pre, pre.wf()
         ensures final(bp).wf(), final(bp).same(&pre), final(bp).evs() == pre.evs(), final(bp).cur() >= pre.cur(),
+            o.is_some() ==> pre.cur() < pre.toks().len() && pre.toks()[pre.cur()].kind == TokenKind::OpenParen
+                && close_at(pre.toks(), pre.cur(), final(bp).cur() - 1),
 closure @ `|t| t == T![')']` `TokenKind` ret `b: bool`:
         ensures b == (t == TokenKind::CloseParen)
+before `let _intermediate = bp.until(|t| t == T![')'])?;`:
+                        let ghost u0 = *bp;
+after `let _intermediate = bp.until(|t| t == T![')'])?;`:
+                        proof {
+                            let p = bp.cur();
+                            assert forall|k: int| pre.cur() < k < p implies (#[trigger] bp.toks()[k]).kind != TokenKind::CloseParen by {
+                                assert(u0.rest_spec()[k - u0.cur()] == bp.toks()[k]);
+                            }
+                        }
+after `Some(())<NL>                    });<NL>                }`:
+                proof {
+                    if bp.cur() > c0 + 1 { lemma_close_shift(bp.toks(), start as int, c0 + 1, bp.cur() - 1); }
+                    cuts = cuts0.push(bp.cur() - start);
+                }
 before `&bp.tokens()[start..bp.current]`:
-    proof { lemma_sub_ok(bp.toks(), start as int, bp.cur()); }
+    proof {
+        lemma_sub_ok(bp.toks(), start as int, bp.cur());
+        let sl = bp.toks().subrange(start as int, bp.cur());
+        assert forall|k: int| 0 <= k < cuts.len() - 1 implies elem_ok(sl, #[trigger] cuts[k], cuts[k + 1], inter) by {
+            assert(elem_ok(rest, cuts[k], cuts[k + 1], inter));
+            assert(cuts[k + 1] <= cuts.last());
+            lemma_elem_trunc(rest, sl.len() as int, cuts[k], cuts[k + 1], inter);
+            assert(rest.subrange(0, sl.len() as int) =~= sl);
+        }
+        lemma_cuts_mods(sl, cuts, 0, inter);
+    }
 @*/
 impl<'t> Body<'t> {
     /// what comp_body promises about a parsed component body that started at token `c0` of `ts`
@@ -1715,13 +1856,81 @@ before `let close_span = Span::new(close_span_start, close_span_end);`:
         proof { lemma_mono(line.toks(), i1, line.cur() - 1); assert(line.toks()[i1].span.s() < line.toks()[i1].span.e());
                 lemma_off_mono(line.toks(), old(line).cur(), i1); lemma_mono(line.toks(), old(line).cur(), i1); }
 @*/
-/*@ fn src/parser/step.rs parse_modifiers stub
+// ASSUMED (slice patterns are outside the verifier): consumes exactly the `( .. )` group if the next token is `(`
+/*@ fn src/parser/step.rs parse_intermediate_ref_data stub
 ret r
 spec:
-    requires old(bp).wf(), toks_ok(modifiers_tokens@), gbnd(modifiers_pos as int),
+    requires old(bp).wf(), toks_ok(vals(old(tokens).remaining())),
+        // [C03] the `expect` on the closing parenthesis: a `(` is only ever followed by its `)`
+        vals(old(tokens).remaining()).len() > 0 && vals(old(tokens).remaining())[0].kind == TokenKind::OpenParen
+            ==> exists|j: int| #[trigger] close_at(vals(old(tokens).remaining()), 0, j),
     ensures final(bp).wf(), final(bp).same(old(bp)), final(bp).cur() == old(bp).cur(), only_diags(final(bp).evs(), old(bp).evs()),
-        r.flags.sp().ok(), r.intermediate_data.is_some() ==> r.intermediate_data.unwrap().sp().ok(),
+        r.is_some() ==> r.unwrap().sp().ok(),
+        vals(old(tokens).remaining()).len() > 0 && vals(old(tokens).remaining())[0].kind == TokenKind::OpenParen
+            ==> exists|j: int| #[trigger] close_at(vals(old(tokens).remaining()), 0, j) && vals((*final(tokens)).remaining()) == vals(old(tokens).remaining()).skip(j + 1),
+        !(vals(old(tokens).remaining()).len() > 0 && vals(old(tokens).remaining())[0].kind == TokenKind::OpenParen)
+            ==> vals((*final(tokens)).remaining()) == vals(old(tokens).remaining()),
+        (*final(tokens)).remaining().len() <= old(tokens).remaining().len(),
+        old(tokens).decrease().is_some() ==> (*final(tokens)).decrease().is_some() && (*final(tokens)).decrease().unwrap() <= old(tokens).decrease().unwrap(),
+@*/
+/*@ fn src/parser/step.rs parse_modifiers
+tags C03 C04 C07
+ret r
+rewrite `modifiers |= new_m;` => `modifiers.insert(new_m);`
+enter:
+    hide(toks_ok);
+    proof { lemma_modifier_bits(); lemma_or_recipe(0, 0); }
+spec:
+    requires old(bp).wf(), toks_ok(modifiers_tokens@), gbnd(modifiers_pos as int),
+        mods_ok(modifiers_tokens@, 0, old(bp).ext().has(Extensions::INTERMEDIATE_PREPARATIONS)),    // [C03] established by modifiers()
+    ensures final(bp).wf(), final(bp).same(old(bp)), final(bp).cur() == old(bp).cur(), only_diags(final(bp).evs(), old(bp).evs()),
+        r.flags.sp().ok(), r.intermediate_data.is_some() ==> r.intermediate_data.unwrap().sp().ok(),     // [C04]
         r.flags.val().has(Modifiers::RECIPE) ==> exists|i: int| 0 <= i < modifiers_tokens@.len() && (#[trigger] modifiers_tokens@[i]).kind == TokenKind::At,
+after `let mut tokens = modifiers_tokens.iter();`:
+        let ghost mt = modifiers_tokens@;
+        let ghost inter = bp.ext().has(Extensions::INTERMEDIATE_PREPARATIONS);
+        let ghost mut idx: int = 0;    // number of modifier tokens consumed so far
+        proof { lemma_vals_as_ref(mt); assert(mt.skip(0) =~= mt); }
+loop 0:
+            invariant bp.wf(), bp.same(old(bp)), bp.cur() == old(bp).cur(), only_diags(bp.evs(), old(bp).evs()),
+                mt == modifiers_tokens@, toks_ok(mt), inter == bp.ext().has(Extensions::INTERMEDIATE_PREPARATIONS),
+                modifiers_span.ok(),
+                inter_data_ok(intermediate_data),
+                0 <= idx <= mt.len(), vals(tokens.remaining()) == mt.skip(idx), mods_ok(mt, idx, inter),
+                modifiers.bits & 1 == 1 ==> exists|i: int| 0 <= i < mt.len() && (#[trigger] mt[i]).kind == TokenKind::At,
+                tokens.decrease().is_some(),
+            decreases tokens.decrease().unwrap()
+loopbody 0:
+            broadcast use {lemma_vals_skip, lemma_vals_drop_first};
+            let ghost m0 = modifiers.bits;
+            let ghost i = idx;
+            proof {
+                lemma_modifier_bits();
+                assert(mt.skip(i).len() > 0);
+                assert(mt.skip(i).drop_first() =~= mt.skip(i + 1));
+                assert(mt.skip(i)[0] == mt[i]);
+                assert(vals(tokens.remaining()) == mt.skip(i + 1));
+                assert(*tok == mt[i]);
+                lemma_sub_ok(mt, i + 1, mt.len() as int); assert(mt.skip(i + 1) =~= mt.subrange(i + 1, mt.len() as int));
+                lemma_tok(mt, i);
+                idx = i + 1;
+                if mt[i].kind == TokenKind::And && i + 1 < mt.len() && mt[i + 1].kind == TokenKind::OpenParen {
+                    let j = choose|j: int| #[trigger] close_at(mt, i + 1, j) && mods_ok(mt, j + 1, inter);
+                    lemma_close_shift(mt, i + 1, i + 1, j);
+                    assert(close_at(mt.skip(i + 1), 0, j - (i + 1)));
+                    assert(mt.skip(i + 1).skip(j - (i + 1) + 1) =~= mt.skip(j + 1));
+                    idx = j + 1;
+                }
+            }
+after `intermediate_data = parse_intermediate_ref_data(bp, &mut tokens);`:
+                        proof {
+                            if mt[i].kind == TokenKind::And && i + 1 < mt.len() && mt[i + 1].kind == TokenKind::OpenParen {
+                                let j = idx - 1;
+                                assert forall|j2: int| #[trigger] close_at(mt.skip(i + 1), 0, j2) implies j2 == j - (i + 1) by { lemma_close_unique(mt.skip(i + 1), 0, j2, j - (i + 1)); }
+                            }
+                        }
+after `modifiers |= new_m;<NL>            }`:
+            proof { lemma_or_recipe(m0, new_m.bits); }
 @*/
 /*@ fn src/parser/step.rs parse_alias
 tags C03 C04 C07 C02
